@@ -402,68 +402,7 @@ func checkC15(c *Ctx) {
 	checkExecuteOrdering(c, cmds, pk)
 
 	// ---- R4 sections
-	c.Rule("C15.R4.sections", "the text report reaches reportChanges(c) for every constant c of Compatibility; the breaking-only report reports Breaking", 4)
-	reach := map[string]bool{}
-	var visit func(fn string, depth int)
-	seenFn := map[string]bool{}
-	visit = func(fn string, depth int) {
-		if seenFn[fn] || depth > 3 {
-			return
-		}
-		seenFn[fn] = true
-		fd := load.FuncDecl(pk, fn)
-		if fd == nil {
-			return
-		}
-		ast.Inspect(fd.Body, func(n ast.Node) bool {
-			call, ok := n.(*ast.CallExpr)
-			if !ok {
-				return true
-			}
-			callee := goan.Callee(info, call)
-			if callee == nil || callee.Pkg() != pk.Types {
-				return true
-			}
-			if callee.Name() == "reportChanges" && len(call.Args) == 1 {
-				if k := goan.ConstObj(info, call.Args[0]); k != nil {
-					reach[fn+":"+k.Name()] = true
-				}
-			}
-			if callee.Name() == "ReportCompatibility" {
-				visit("SpecDifferences.ReportCompatibility", depth+1)
-				for k := range reach {
-					if strings.HasPrefix(k, "SpecDifferences.ReportCompatibility:") {
-						reach[fn+":"+strings.TrimPrefix(k, "SpecDifferences.ReportCompatibility:")] = true
-					}
-				}
-			}
-			return true
-		})
-	}
-	visit("SpecDifferences.ReportAllDiffs", 0)
-	visit("SpecDifferences.ReportCompatibility", 0)
-	for _, k := range load.ConstsOfType(pk, "Compatibility") {
-		c.Check(reach["SpecDifferences.ReportAllDiffs:"+k.Name()], "C15.R4.sections", "diff.SpecDifferences.ReportAllDiffs › section "+k.Name(), "",
-			"reportChanges("+k.Name()+") reachable", "the text report has no section for "+k.Name()+" differences: they appear in the JSON report only")
-	}
-	c.Check(reach["SpecDifferences.ReportCompatibility:Breaking"], "C15.R4.sections", "diff.SpecDifferences.ReportCompatibility › section Breaking", "",
-		"reportChanges(Breaking) reachable", "the breaking-only report does not list Breaking differences")
-	// reportChanges filters on equality with its parameter
-	if fd := load.FuncDecl(pk, "SpecDifferences.reportChanges"); fd != nil {
-		param := info.Defs[fd.Type.Params.List[0].Names[0]]
-		found := false
-		ast.Inspect(fd.Body, func(n ast.Node) bool {
-			if be, ok := n.(*ast.BinaryExpr); ok && be.Op == token.EQL {
-				if (goan.LastSel(be.X) == "Compatibility" && identIs(info, be.Y, param)) || (goan.LastSel(be.Y) == "Compatibility" && identIs(info, be.X, param)) {
-					found = true
-				}
-			}
-			return true
-		})
-		c.Check(found, "C15.R4.sections", "diff.SpecDifferences.reportChanges › selects diff.Compatibility == compat", c.posOf(pk, fd.Pos()), "selection by equality with the parameter", "reportChanges does not select on `diff.Compatibility == compat`")
-	} else {
-		c.Anchor("C15.R4.sections", "SpecDifferences.reportChanges", "not found")
-	}
+	checkSections(c, pk)
 
 	// ---- R5 exit status
 	checkExitStatus(c, "C15.R5.exit-status", pk, cmds)
@@ -774,4 +713,227 @@ func noBreakingGuard(info *types.Info, fd *ast.FuncDecl, recv types.Object, guar
 		}
 	}
 	return false
+}
+
+
+// countEnv is a small model of a difference list: how many entries of each class.
+type countEnv struct{ b, nb, w int }
+
+// evalCount abstractly evaluates an integer/boolean expression of a report function over a
+// small model of the receiver: len(recv), recv.BreakingChangeCount(), recv.WarningChangeCount(),
+// locals with a single definition, integer literals, + - comparisons and boolean connectives.
+func evalCount(info *types.Info, fd *ast.FuncDecl, recv types.Object, e ast.Expr, env countEnv, boolParams map[string]bool) (iv int, bv bool, isBool bool, ok bool) {
+	e = ast.Unparen(e)
+	switch x := e.(type) {
+	case *ast.BasicLit:
+		if v := goan.ConstVal(info, x); v != nil {
+			var n int
+			if _, err := fmt.Sscanf(v.String(), "%d", &n); err == nil {
+				return n, false, false, true
+			}
+		}
+	case *ast.Ident:
+		if x.Name == "true" || x.Name == "false" {
+			return 0, x.Name == "true", true, true
+		}
+		if v, isP := boolParams[x.Name]; isP {
+			return 0, v, true, true
+		}
+		def := goan.ResolveLocal(info, fd.Body, x)
+		if def != ast.Expr(x) {
+			return evalCount(info, fd, recv, def, env, boolParams)
+		}
+	case *ast.StarExpr:
+		return evalCount(info, fd, recv, x.X, env, boolParams)
+	case *ast.UnaryExpr:
+		if x.Op == token.NOT {
+			_, b, isB, ok := evalCount(info, fd, recv, x.X, env, boolParams)
+			return 0, !b, isB, ok && isB
+		}
+	case *ast.CallExpr:
+		if goan.IsBuiltinCall(info, x, "len") && len(x.Args) == 1 {
+			a := ast.Unparen(x.Args[0])
+			if st, ok := a.(*ast.StarExpr); ok {
+				a = st.X
+			}
+			if identIs(info, a, recv) {
+				return env.b + env.nb + env.w, false, false, true
+			}
+		}
+		if se, ok := x.Fun.(*ast.SelectorExpr); ok && identIs(info, se.X, recv) && len(x.Args) == 0 {
+			switch se.Sel.Name {
+			case "BreakingChangeCount":
+				return env.b, false, false, true
+			case "WarningChangeCount":
+				return env.w, false, false, true
+			}
+		}
+	case *ast.BinaryExpr:
+		li, lb, lIsB, ok1 := evalCount(info, fd, recv, x.X, env, boolParams)
+		ri, rb, rIsB, ok2 := evalCount(info, fd, recv, x.Y, env, boolParams)
+		if !ok1 || !ok2 || lIsB != rIsB {
+			return 0, false, false, false
+		}
+		if lIsB {
+			switch x.Op {
+			case token.LAND:
+				return 0, lb && rb, true, true
+			case token.LOR:
+				return 0, lb || rb, true, true
+			case token.EQL:
+				return 0, lb == rb, true, true
+			case token.NEQ:
+				return 0, lb != rb, true, true
+			}
+			return 0, false, false, false
+		}
+		switch x.Op {
+		case token.ADD:
+			return li + ri, false, false, true
+		case token.SUB:
+			return li - ri, false, false, true
+		case token.EQL:
+			return 0, li == ri, true, true
+		case token.NEQ:
+			return 0, li != ri, true, true
+		case token.GTR:
+			return 0, li > ri, true, true
+		case token.LSS:
+			return 0, li < ri, true, true
+		case token.GEQ:
+			return 0, li >= ri, true, true
+		case token.LEQ:
+			return 0, li <= ri, true, true
+		}
+	}
+	return 0, false, false, false
+}
+
+// checkSections: in text mode, the section of class K is rendered whenever the list holds a
+// difference of class K. The guards of each reportChanges(K) call (and of the call to
+// ReportCompatibility) are evaluated over every small model (0..3 entries per class).
+func checkSections(c *Ctx, pk *packages.Package) {
+	rule := "C15.R4.sections"
+	c.Rule(rule, "text report: for every Compatibility constant K the guards of reportChanges(K) hold in every model of the list with a K entry (models: 0..3 entries per class); the breaking-only report lists Breaking; reportChanges selects on equality", 5)
+	info := pk.TypesInfo
+	type callGuard struct {
+		k      string
+		guards []goan.Lit
+		pos    token.Pos
+	}
+	collect := func(fn string) (*ast.FuncDecl, types.Object, []callGuard) {
+		fd := load.FuncDecl(pk, fn)
+		if fd == nil {
+			c.Anchor(rule, fn, "not found")
+			return nil, nil, nil
+		}
+		recv := info.Defs[fd.Recv.List[0].Names[0]]
+		var out []callGuard
+		goan.WalkGuards(info, fd.Body, func(n ast.Node, guards []goan.Lit, _ []ast.Stmt) {
+			if _, isStmt := n.(ast.Stmt); !isStmt {
+				return
+			}
+			ast.Inspect(n, func(m ast.Node) bool {
+				call, ok := m.(*ast.CallExpr)
+				if !ok {
+					return true
+				}
+				se, ok := call.Fun.(*ast.SelectorExpr)
+				if !ok || !identIs(info, se.X, recv) {
+					return true
+				}
+				switch se.Sel.Name {
+				case "reportChanges":
+					if len(call.Args) == 1 {
+						if k := goan.ConstObj(info, call.Args[0]); k != nil {
+							out = append(out, callGuard{k.Name(), guards, call.Pos()})
+						}
+					}
+				case "ReportCompatibility":
+					out = append(out, callGuard{"→ReportCompatibility", guards, call.Pos()})
+				}
+				return true
+			})
+		})
+		return fd, recv, out
+	}
+	holds := func(fd *ast.FuncDecl, recv types.Object, guards []goan.Lit, class string, params map[string]bool) (bool, string) {
+		for b := 0; b <= 3; b++ {
+			for nb := 0; nb <= 3; nb++ {
+				for w := 0; w <= 3; w++ {
+					env := countEnv{b, nb, w}
+					n := map[string]int{"Breaking": b, "NonBreaking": nb, "Warning": w}[class]
+					if n == 0 {
+						continue
+					}
+					for _, g := range guards {
+						if g.Tag != nil || g.NonEmpty {
+							return false, "guard " + g.String() + " is not an arithmetic/boolean condition over the list's counts"
+						}
+						_, v, isB, ok := evalCount(info, fd, recv, g.E, env, params)
+						if !ok || !isB {
+							return false, "guard " + g.String() + " cannot be evaluated over the list's counts"
+						}
+						if v != g.Pos {
+							return false, fmt.Sprintf("with %d Breaking, %d NonBreaking and %d Warning differences the guard %s is false: the %s section is skipped although the list holds %s differences", b, nb, w, g.String(), class, class)
+						}
+					}
+				}
+			}
+		}
+		return true, ""
+	}
+	rfd, rrecv, rcalls := collect("SpecDifferences.ReportAllDiffs")
+	cfd, crecv, ccalls := collect("SpecDifferences.ReportCompatibility")
+	if rfd == nil || cfd == nil {
+		return
+	}
+	text := map[string]bool{"fmtJSON": false}
+	for _, p := range rfd.Type.Params.List {
+		for _, n := range p.Names {
+			text[n.Name] = false // the (single, boolean) parameter selects JSON; text mode = false
+		}
+	}
+	for _, k := range load.ConstsOfType(pk, "Compatibility") {
+		okK, why := false, "reportChanges("+k.Name()+") is not reachable from the text report"
+		for _, cg := range rcalls {
+			if cg.k == k.Name() {
+				okK, why = holds(rfd, rrecv, cg.guards, k.Name(), text)
+			}
+			if cg.k == "→ReportCompatibility" && !okK {
+				// section rendered by ReportCompatibility
+				for _, cc := range ccalls {
+					if cc.k == k.Name() {
+						ok1, why1 := holds(rfd, rrecv, cg.guards, k.Name(), text)
+						ok2, why2 := holds(cfd, crecv, cc.guards, k.Name(), nil)
+						okK, why = ok1 && ok2, why1+why2
+					}
+				}
+			}
+		}
+		c.Check(okK, rule, "diff.SpecDifferences.ReportAllDiffs › section "+k.Name(), c.posOf(pk, rfd.Pos()), "rendered in every model holding a "+k.Name()+" difference", why)
+	}
+	okB, whyB := false, "reportChanges(Breaking) not called"
+	for _, cc := range ccalls {
+		if cc.k == "Breaking" {
+			okB, whyB = holds(cfd, crecv, cc.guards, "Breaking", nil)
+		}
+	}
+	c.Check(okB, rule, "diff.SpecDifferences.ReportCompatibility › section Breaking", c.posOf(pk, cfd.Pos()), "rendered whenever a Breaking difference exists", whyB)
+	// reportChanges filters on equality with its parameter
+	if fd := load.FuncDecl(pk, "SpecDifferences.reportChanges"); fd != nil {
+		param := info.Defs[fd.Type.Params.List[0].Names[0]]
+		found := false
+		ast.Inspect(fd.Body, func(n ast.Node) bool {
+			if be, ok := n.(*ast.BinaryExpr); ok && be.Op == token.EQL {
+				if (goan.LastSel(be.X) == "Compatibility" && identIs(info, be.Y, param)) || (goan.LastSel(be.Y) == "Compatibility" && identIs(info, be.X, param)) {
+					found = true
+				}
+			}
+			return true
+		})
+		c.Check(found, rule, "diff.SpecDifferences.reportChanges › selects diff.Compatibility == compat", c.posOf(pk, fd.Pos()), "selection by equality with the parameter", "reportChanges does not select on `diff.Compatibility == compat`")
+	} else {
+		c.Anchor(rule, "SpecDifferences.reportChanges", "not found")
+	}
 }
